@@ -241,6 +241,48 @@ def run(ck: Check) -> int:
         finally:
             shutil.rmtree(tmp, ignore_errors=True)
     ck.search('api-exceptions', s_api)
+
+    def s_degrade(sr):
+        """an extended-group opener that is never closed degrades to its literal meaning: the pattern means under EXTMATCH what it
+        means without it (no `)` anywhere in the pattern, so no group can close) — fnmatch on names, globmatch on paths, with and
+        without DOTMATCH, names with leading dots included (added after seeded change C10e: the failed group did not restore the
+        start-of-name state, so `*(a` accepted `.b(a`)"""
+        import itertools
+        from wcmatch import fnmatch as F, glob as G
+        heads = ['', 'a', '.', '*', 'b?']
+        bodies = ['', 'a', 'a|b', 'a|', '[a', '.a', '*', 'a|.b', '?(a', 'ab|*(b']
+        pats = [h + x + '(' + b for h in heads for x in '*?+@!' for b in bodies if not (h == '' and x == '!')]
+        names = [''.join(t) for L in range(1, 4 if quick else 5) for t in itertools.product('ab.(|', repeat=L)]
+        names = [n for n in names if n.count('(') <= 1 and n.count('|') <= 1]
+        names += ['.b(a', '.(a', 'a.(a', '.a(a|b', 'ab(a', '.ab(', '?(a', '*(a', '.*(a']
+        for p in pats:
+            for dm in (0, F.DOTMATCH):
+                try:
+                    m1 = F.compile(p, flags=F.EXTMATCH | F.FORCEUNIX | dm)
+                    m0 = F.compile(p, flags=F.FORCEUNIX | dm)
+                    g1 = G.compile('d/' + p, flags=G.EXTGLOB | G.FORCEUNIX | dm)
+                    g0 = G.compile('d/' + p, flags=G.FORCEUNIX | dm)
+                except Exception as e:      # noqa: BLE001
+                    ck.report(Failing(f'compile({p!r}) raised {type(e).__name__}', {'api': 'fnmatch.compile', 'pattern': p}, 'a matcher', str(e)[:200]), None)
+                    continue
+                for n in names:
+                    sr.evaluations += 2
+                    a, b = bool(m1.match(n)), bool(m0.match(n))
+                    if a != b:
+                        ck.report(Failing(f'unclosed group: fnmatch({n!r}, {p!r}) is {a} under EXTMATCH, its literal meaning gives {b}',
+                                          {'api': 'fnmatch', 'pattern': p, 'name': n, 'flags': F.EXTMATCH | F.FORCEUNIX | dm}, b, a), None)
+                    a, b = bool(g1.match('d/' + n)), bool(g0.match('d/' + n))
+                    if n.startswith('.') and not dm and p[:2] in ('**', '*?'):
+                        # C03's recorded finding KF-D4 (path mode: the wildcard after a segment-initial `*` takes the leading dot):
+                        # `**(` re-read as two stars shows it, `**(` read as one merged star does not — not a C10 matter
+                        sr.histogram['KF-D4 shape skipped'] = sr.histogram.get('KF-D4 shape skipped', 0) + 1
+                        continue
+                    if a != b:
+                        ck.report(Failing(f'unclosed group: globmatch({"d/" + n!r}, {"d/" + p!r}) is {a} under EXTGLOB, its literal meaning gives {b}',
+                                          {'api': 'globmatch', 'pattern': 'd/' + p, 'name': 'd/' + n, 'flags': G.EXTGLOB | G.FORCEUNIX | dm}, b, a), None)
+        sr.distinct = len(pats) * 2
+        sr.note = s_degrade.__doc__.replace('\n        ', ' ')
+    ck.search('unclosed-group-is-literal', s_degrade)
     if drv:
         drv.close()
     return ck.finish()
